@@ -41,6 +41,10 @@
 
 static int send_buffer(struct buffered_socket *bs)
 {
+	if (unlikely(bs->write_failed)) {
+		return -1;
+	}
+
 	uint8_t *write_buffer_ptr = bs->write_buffer;
 	while (bs->to_write != 0) {
 		cjet_ssize_t written = socket_writev_with_prefix(bs->ev.sock, write_buffer_ptr, bs->to_write, NULL, 0);
@@ -50,6 +54,11 @@ static int send_buffer(struct buffered_socket *bs)
 			if (unlikely((err != resource_unavailable_try_again) &&
 						 (err != operation_would_block))) {
 				log_err("unexpected %s error: %s!", "write", get_socket_error_msg(err));
+				/*
+				 * Parts of the buffer might be sent already. Never write to this
+				 * socket again, otherwise the peer sees a corrupted stream.
+				 */
+				bs->write_failed = true;
 				return -1;
 			} else {
 				memmove(bs->write_buffer, write_buffer_ptr, bs->to_write);
@@ -315,6 +324,7 @@ void buffered_socket_init(struct buffered_socket *bs, socket_type sock, struct e
 	bs->ev.loop = loop;
 
 	bs->to_write = 0;
+	bs->write_failed = false;
 	bs->read_ptr = bs->read_buffer;
 	bs->write_ptr = bs->read_buffer;
 
@@ -335,6 +345,10 @@ int buffered_socket_close(void *context)
 int buffered_socket_writev(void *this_ptr, struct socket_io_vector *io_vec, unsigned int count)
 {
 	struct buffered_socket *bs = (struct buffered_socket *)this_ptr;
+	if (unlikely(bs->write_failed)) {
+		return -1;
+	}
+
 	size_t to_write = bs->to_write;
 
 	for (unsigned int i = 0; i < count; i++) {
@@ -370,6 +384,21 @@ int buffered_socket_writev(void *this_ptr, struct socket_io_vector *io_vec, unsi
 		io_vec_written = written - bs->to_write;
 		bs->to_write = 0;
 	}
+
+	if (unlikely((to_write - written) > (size_t)CONFIG_MAX_WRITE_BUFFER_SIZE)) {
+		/*
+		 * The unsent rest of the message does not fit into the write buffer.
+		 * Do not queue parts of it. If parts of the message are already sent,
+		 * the peer must never see anything else after this torn message.
+		 */
+		log_err("not enough space left in write buffer! %zu bytes of %i left",
+		        (size_t)CONFIG_MAX_WRITE_BUFFER_SIZE - bs->to_write, CONFIG_MAX_WRITE_BUFFER_SIZE);
+		if (io_vec_written > 0) {
+			bs->write_failed = true;
+		}
+		return -1;
+	}
+
 	if (unlikely(copy_iovec_to_write_buffer(bs, io_vec, count, io_vec_written) < 0)) {
 		return -1;
 	}
